@@ -146,7 +146,7 @@ fn main() {
             }
         };
         let mut o = stdout.lock();
-        writeln!(o, "{}", out).unwrap();
+        writeln!(o, "\n@@RESULT@@{}", out).unwrap();
         o.flush().unwrap();
     }
 }
